@@ -41,7 +41,7 @@ def gen_cases(tier, seed):
               "logabsdet", "random_orthogonal", "masks", "temperature", "kde", "typechecks", "misc",
               "library"]
     cases = []
-    reps = 1 if tier == "quick" else 6
+    reps = 2 if tier == "quick" else 8
     for g in groups:
         for rep in range(reps):
             cases.append({"group": g, "ext": ext, "rep": rep, "seed": env.subseed(seed, g, rep),
@@ -203,7 +203,8 @@ def run_case(case):
     elif g == "searchsorted":
         for K in (1, 2, 3, 5, 8):
             for lead in ((), (1,), (3,), (2, 3), (2, 1, 2)):
-                for scale, shift in ((1.0, 0.0), (2.0, -1.0), (6.0, -3.0)):
+                for scale, shift in ((1.0, 0.0), (2.0, -1.0), (6.0, -3.0), (2.0, -3.0), (2.0, -2.0), (0.5, -40.0),
+                                     (100.0, -50.0)):
                     w = rng.random(lead + (K,)) + 0.05
                     loc = np.concatenate([np.zeros(lead + (1,)), np.cumsum(w, -1)], -1)
                     loc = loc / loc[..., -1:]
@@ -255,9 +256,15 @@ def run_case(case):
         r.sample({"fn": "cbrt", "x": [-27.0, 0.0, 8.0], "out": _np(tu.cbrt(torch.tensor([-27.0, 0.0, 8.0])))})
 
     elif g == "logabsdet":
-        for n in (1, 2, 3, 4, 6):
-            for kind in ("pos", "neg", "random", "near_singular", "scaled"):
+        for n in (1, 2, 3, 4, 6, 24, 48, 96, 160):
+            for kind in ("pos", "neg", "random", "near_singular", "scaled", "tiny_orth", "huge_orth"):
+                if n > 6 and kind not in ("tiny_orth", "huge_orth", "random"):
+                    continue
                 a = rng.standard_normal((n, n))
+                if kind in ("tiny_orth", "huge_orth"):
+                    # |det| itself under/overflows in float32 (and for n=96 nearly in float64) while log|det| is modest
+                    q, _ = np.linalg.qr(a)
+                    a = q * (3e-3 if kind == "tiny_orth" else 3e2)
                 if kind == "pos" and np.linalg.det(a) < 0:
                     a[0] *= -1
                 if kind == "neg" and np.linalg.det(a) > 0:
